@@ -31,6 +31,7 @@ func checkHotkeyE2E(c e2eCase) (nt bool, v *verdict) {
 	}
 	defer w.Close()
 	w.AssignEven(w.Masters())
+	defer sim.ProductionRefreshRate()() // stable layout: see the function
 	px, err := sim.StartProxy(sim.ProxyOpts{Seeds: w.AllAddrs()})
 	if err != nil {
 		return false, &verdict{"proxy-start", err.Error()}
